@@ -11,7 +11,7 @@ VALUES = [
     ("foo", lambda: Id("foo")), ("bar", lambda: Id("bar")), ("baz", lambda: Id("baz")), ("untyped_child", lambda: Id("child")),
 ]
 HINTS = ["Any", "Callable", "Indexable", "Iterable", "Number", "String", "Bool", "Null", "List", "Tuple", "Map", "Range", "Function",
-         "Iterator", "Foo", "Bar", "Baz", "Number?", "Foo?", "List?", "Any?"]
+         "Iterator", "Foo", "Bar", "Baz", "Number?", "Foo?", "List?", "Any?", "Callable?", "Indexable?", "Iterable?", "Null?"]
 
 
 def objects():
